@@ -67,7 +67,7 @@ def caller_object_params(pv, cg, reach, seeds):
         for n in walk_no_nested(cg.funcs[q]):
             if not isinstance(n, ast.Call):
                 continue
-            for callee in cg.callees(q, n):
+            for callee in pv.callees(q, n):
                 if callee not in cg.funcs:
                     continue
                 for param, args in pv.bind_call(callee, n).items():
@@ -96,7 +96,7 @@ def check_reader(rep, facts, cg, pv, reach):
     n_rec = 0
     for q in sorted(pv.reach('read_lines')):
         for c in walk_no_nested(cg.funcs[q]):
-            if not (isinstance(c, ast.Call) and 'read_lines' in cg.callees(q, c)):
+            if not (isinstance(c, ast.Call) and 'read_lines' in pv.callees(q, c)):
                 continue
             n_rec += 1
             bound = pv.bind_call('read_lines', c)
@@ -214,7 +214,7 @@ def check_cli(rep, facts, cg, pv):
     calls = []
     for q in sorted(pv.reach('cli_main')):
         for n in walk_no_nested(cg.funcs[q]):
-            if isinstance(n, ast.Call) and 'assemble' in cg.callees(q, n):
+            if isinstance(n, ast.Call) and 'assemble' in pv.callees(q, n):
                 calls.append((q, n))
     if not calls:
         raise AnalysisError('anchor vanished: assemble call reachable from cli_main')
